@@ -29,7 +29,8 @@ def strategy(tier_n):
     @st.composite
     def cases(draw):
         fam = draw(st.sampled_from(S.FAMILIES))
-        tau = draw(st.floats(0.05, 0.8))
+        # Clayton and Gumbel up to tau 0.9 (theta 18 / 10); Frank up to 0.8 (its CDF overflows beyond theta ~ 37)
+        tau = draw(st.floats(0.05, 0.8)) if fam == 'frank' else draw(st.one_of(st.floats(0.05, 0.8), st.floats(0.05, 0.8), st.floats(0.8, 0.9)))
         if fam == 'frank' and draw(st.booleans()):
             tau = -tau
         return {'family': fam, 'tau': tau, 'how': draw(st.sampled_from(['set', 'set', 'fit', 'refit'])), 'tau0': draw(st.floats(0.05, 0.8)),
@@ -139,7 +140,46 @@ def oracle(case):
     return {'nontrivial': abs(tau) >= 0.2, 'classes': [fam, 'how:' + case['how'], 'seed:' + case['seed_kind'], 'neg' if tau < 0 else 'pos', 'chunk:%s' % case.get('chunk')]}
 
 
+# ---- tail corners: where families with the same margins and the same tau differ -------------------------------
+
+def corner_cells(tier, seed):
+    """Large samples for a few strongly dependent copulas: the mass of the four corner boxes of side 0.05 separates a
+    copula from its survival / reflected versions (same margins, same Kendall tau), which the 9 x 9 grid at
+    alpha 1e-13 cannot do below n ~ 80000."""
+    rs = np.random.RandomState((seed * 13 + 5) % (2 ** 32))
+    n = 40000 if tier == 'quick' else 150000
+    cells = [('gumbel', 0.85), ('gumbel', 0.7), ('clayton', 0.85), ('clayton', 0.6), ('frank', 0.7), ('frank', -0.7)]
+    return [{'family': f, 'tau': t, 'n': n, 'seed': int(rs.randint(0, 2 ** 31 - 1))} for f, t in cells]
+
+
+def oracle_corners(case):
+    from scipy import stats
+
+    fam, tau, n = case['family'], case['tau'], case['n']
+    th = ref.theta_from_tau(fam, tau)
+    cop = S.make_copula(fam, th, tau=tau, random_state=case['seed'])
+    X = np.asarray(value(cop.sample, n, what='%s.sample' % type(cop).__name__))
+    require(X.shape == (n, 2) and np.all(np.isfinite(X)), 'sample(%d) returned shape %s / non-finite values' % (n, X.shape), tag='shape')
+    q = 0.05
+    C = lambda a, b: float(ref.cdf_ref(fam, th, np.array([a]), np.array([b]))[0])
+    boxes = {
+        'lower-left': (C(q, q), (X[:, 0] <= q) & (X[:, 1] <= q)),
+        'upper-right': (1 - 2 * (1 - q) + C(1 - q, 1 - q), (X[:, 0] > 1 - q) & (X[:, 1] > 1 - q)),
+        'lower-right': (q - C(1 - q, q), (X[:, 0] > 1 - q) & (X[:, 1] <= q)),
+        'upper-left': (q - C(q, 1 - q), (X[:, 0] <= q) & (X[:, 1] > 1 - q)),
+    }
+    alpha = vs.ALPHA_I / 8
+    for name, (p, mask) in boxes.items():
+        k = int(mask.sum())
+        p = min(max(p, 0.0), 1.0)
+        pv = 2 * min(float(stats.binom.cdf(k, n, p)), float(stats.binom.sf(k - 1, n, p)))
+        require(pv >= alpha, '%s(theta=%.4g): %d of %d sampled rows fall into the %s corner box of side %.2f, the copula puts probability %.5f there '
+                '(expected %.0f; two-sided binomial p=%.3g)' % (fam, th, k, n, name, q, p, n * p, pv), tag='corner-mass')
+    return {'nontrivial': True, 'classes': ['cell:%s/%.2f' % (fam, tau)]}
+
+
 SUBS = [
+    Sub('tail_corners', None, oracle_corners, enumerate_cases=corner_cells),
     Sub('sample_law', strategy(1.0), oracle, quick=160, thorough=0, shrink=False),
     Sub('sample_law_large', strategy(3.5), oracle, quick=0, thorough=640, shrink=False),
 ]
